@@ -499,6 +499,12 @@ func SetSlice(dest reflect.Value, objects interface{}) error {
 }
 
 func ConvertSliceValueType(destTyp reflect.Type, v reflect.Value) (reflect.Value, error) {
+	return convertSlice(destTyp, v, nil)
+}
+
+// convertSlice converts the list v to destTyp; path holds the lists that are being converted around it (a decoded
+// list can contain itself, and such a list has no finite conversion)
+func convertSlice(destTyp reflect.Type, v reflect.Value, path []uintptr) (reflect.Value, error) {
 	if destTyp == v.Type() {
 		return v, nil
 	}
@@ -510,6 +516,15 @@ func ConvertSliceValueType(destTyp reflect.Type, v reflect.Value) (reflect.Value
 
 	if v.Len() <= 0 {
 		return _zeroValue, nil
+	}
+
+	if k == reflect.Slice {
+		for _, p := range path {
+			if p == v.Pointer() {
+				return _zeroValue, newCodecError("ConvertSliceValueType", "a list that contains itself cannot be converted to %v", destTyp)
+			}
+		}
+		path = append(path, v.Pointer())
 	}
 
 	elemKind := destTyp.Elem().Kind()
@@ -540,15 +555,8 @@ func ConvertSliceValueType(destTyp reflect.Type, v reflect.Value) (reflect.Value
 		case elemUintType:
 			sl.Index(i).SetUint(EnsureUint64(itemValue.Interface()))
 		default:
-			if elemKind == reflect.Slice && itemValue.IsValid() && itemValue.Kind() == reflect.Slice && itemValue.Type() != destTyp.Elem() {
-				// a list of lists: the inner list needs the same conversion
-				cv, err := ConvertSliceValueType(destTyp.Elem(), itemValue)
-				if err != nil {
-					return _zeroValue, err
-				}
-				itemValue = cv
-			}
-			SetValue(sl.Index(i), itemValue)
+			// (a list of lists: the inner list gets the same conversion in setValue)
+			setValue(sl.Index(i), itemValue, path)
 		}
 	}
 
@@ -573,6 +581,11 @@ func findField(name string, typ reflect.Type) (int, error) {
 // It will auto check the Ptr pack level and unpack/pack to the right level.
 // It make sure success to set value
 func SetValue(dest, v reflect.Value) {
+	setValue(dest, v, nil)
+}
+
+// setValue is SetValue inside the conversion of the lists in path
+func setValue(dest, v reflect.Value, path []uintptr) {
 	// check whether the v is a ref holder
 	if v.IsValid() {
 		if h, ok := v.Interface().(*_refHolder); ok {
@@ -637,6 +650,14 @@ func SetValue(dest, v reflect.Value) {
 	case reflect.Uint, reflect.Uint8, reflect.Uint16, reflect.Uint32, reflect.Uint64:
 		dest.SetUint(EnsureUint64(v.Interface()))
 		return
+	}
+
+	if dest.Kind() == reflect.Slice && v.Kind() == reflect.Slice && dest.Type().Elem().Kind() != reflect.Uint8 {
+		// a list that arrived untyped (or under another list type) inside a list, a map or a struct:
+		// converted like one that is assigned to a field directly
+		if cv, err := convertSlice(dest.Type(), v, path); err == nil && cv.IsValid() {
+			v = cv
+		}
 	}
 
 	dest.Set(v)
